@@ -7,6 +7,8 @@ pub fn dispatch(op: &str, rest: &str) -> String {
     match op {
         "name" => op_name(G::new(&unhex(a[0])).as_slice(), a[1].parse().unwrap()),
         "script" => crate::ops_script::op_script(&a),
+        "ascript" => crate::ops_script::op_ascript(&a),
+        "aiter" => crate::ops_script::op_aiter(G::new(&unhex(a[0])).as_slice()),
         "text" => crate::ops_text::op_text(&unhex(a[0])),
         "textpair" => crate::ops_text::op_textpair(&unhex(a[0]), &unhex(a[1])),
         "wname" => crate::ops_text::op_wname(&unhex(a[0]), a[1].parse().unwrap()),
